@@ -17,6 +17,18 @@ CLAIMED = {
             "longer/non-ASCII names"),
 }
 
+CLAIMED["C10"] = ("DESIGN.md §4 C10",
+    "Over symbolic ranges (rows 0..10^6, columns 0..18277, both '$' flags, every negative int) z3 shows the real xl_* "
+    "functions are mutually inverse, bijective base-26, order preserving, collapse ranges iff corners coincide, and agree "
+    "with the tokenizer's second decoder; float division discharged by a QF_BVFP lemma.",
+    "trusted: pysym interpreter + regex alphabet-partition model + lemma cut; outside: columns beyond 'ZZZ', rows beyond 10^6")
+CLAIMED["C04"] = ("DESIGN.md §4 C04",
+    "116 fully symbolic record bytes decoded by the real Cell._from_storage are compared field by field with a reference "
+    "walker written from the published layout (flag subsets up to a popcount bound + all-ones); encode/decode round trip of "
+    "the real _to_buffer/_from_storage over presence subsets of the 12 optional ids with symbolic 32-bit ids.",
+    "trusted: pysym, struct model, model stubs for string/rich-text tables; decimal128 arithmetic is an uninterpreted "
+    "function here (C01 decides it); flag words beyond the popcount bound are outside the claim")
+
 NOT_APPLICABLE = {}
 
 
